@@ -161,4 +161,25 @@ theorem areaEqOld_not_symm : ∃ (a b : AreaSpec), areaEqOld true a b = true ∧
   ⟨⟨[], 5, 4, [.f64 0, .f64 0, .f64 100000, .f64 5000]⟩,
    ⟨[], 5, 4, [.f64 0, .f64 0, .f64 (1000010000001 / 10000000), .f64 5000]⟩, by decide +kernel, by decide +kernel⟩
 
+
+/-! ### swath digests: the feed determines the coordinates -/
+
+/-- two swaths of the same shape and dtype (same byte lengths) with the same digest input have the same
+longitudes, the same latitudes and the same mask: nothing of the coordinates is lost or mixed on the way into the hash -/
+theorem swath_feed_injective (lons lats lons' lats' : List Nat) (m m' : Option (List Nat))
+    (h1 : lons.length = lons'.length) (h2 : lats.length = lats'.length)
+    (h : swathFeed lons lats m = swathFeed lons' lats' m') : lons = lons' ∧ lats = lats' ∧ m.getD [] = m'.getD [] := by
+  unfold swathFeed at h
+  obtain ⟨a, b⟩ := List.append_inj h h1
+  obtain ⟨c, d⟩ := List.append_inj b h2
+  exact ⟨a, c, d⟩
+
+/-- exchanging longitudes and latitudes changes the digest input -/
+theorem swath_feed_exchange (lons lats : List Nat) (hl : lons.length = lats.length) (hne : lons ≠ lats) :
+    swathFeed lons lats none ≠ swathFeed lats lons none := by
+  intro h
+  exact hne (swath_feed_injective lons lats lats lons none none hl hl.symm h).1
+
+example : swathFeed [1, 2] [3, 4] (some [0, 1]) = [1, 2, 3, 4, 0, 1] := by decide
+
 end PyresampleModel.C12
